@@ -171,6 +171,13 @@ def _jobs(tier):
         [['S', 'buy', 'LIMIT', 0], ['C', 0], ['S', 'buy', 'LIMIT', 0], ['X', 1], ['S', 'sell', 'MARKET', 1], ['X', 2]],
         [['S', 'buy', 'LIMIT', 0], ['S', 'buy', 'STOP', 0], ['X', 0], ['C', 1], ['S', 'buy', 'MARKET', 0]],
     ]
+    B, X = ['S', 'buy', 'MARKET', 0], 'X'
+    for first, second in (('LIMIT', 'STOP'), ('STOP', 'LIMIT')):
+        for probe in ('LIMIT', 'STOP', 'MARKET'):
+            # buy, two sells of different kinds both filled (the second is clamped to what is left), buy again, probe sell
+            targeted.append([B, ['X', 0], ['S', 'sell', first, 1], ['S', 'sell', second, 1], ['X', 1], ['X', 2], B, ['X', 3], ['S', 'sell', probe, 1]])
+            # the same with the first sell cancelled instead of filled
+            targeted.append([B, ['X', 0], ['S', 'sell', first, 1], ['S', 'sell', second, 1], ['C', 1], ['X', 2], B, ['X', 3], ['S', 'sell', probe, 1]])
     sk += targeted
     if tier != 'quick':
         sk += skeletons(5, types=('LIMIT',))
